@@ -284,6 +284,38 @@ func checkC17(r *Result) {
 		}
 	}
 	r.check(len(prepExt) == 3, "COMMIT-INJECTED", "(*app.ProposalHandler).PrepareProposalHandler # calls the same three extractors", P.Pos(prep.Pos()), fmt.Sprintf("%v", keysOf(prepExt)))
+	// Prepare injects the commit it was given, unchanged: ProcessProposal validates the injected commit against
+	// the last commit it knows itself (ValidateVoteExtensions compares vote by vote), so a filtered or rebuilt
+	// copy makes every validator reject an honest proposal
+	{
+		tmP := NewTermer()
+		n := 0
+		for _, b := range prep.Blocks {
+			for _, in := range b.Instrs {
+				st, ok := in.(*ssa.Store)
+				if !ok {
+					continue
+				}
+				fa, ok := st.Addr.(*ssa.FieldAddr)
+				if !ok || fieldName(fa.X.Type(), fa.Field) != "app.VoteExtTx.ExtendedCommitInfo" {
+					continue
+				}
+				n++
+				v := tmP.Of(st.Val)
+				isReq := strings.HasSuffix(v.Op, "RequestPrepareProposal.LocalLastCommit") && len(v.Args) == 1 && v.Args[0].Find(func(x *Term) bool { return strings.HasPrefix(x.Op, "param:") && strings.HasSuffix(x.Op, "RequestPrepareProposal") }) != nil
+				r.check(isReq, "COMMIT-INJECTED", "(*app.ProposalHandler).PrepareProposalHandler # the injected commit is the request's LocalLastCommit itself", P.Pos(st.Pos()), "injected: "+clip(v.String(), 140))
+			}
+		}
+		r.check(n == 1, "COMMIT-INJECTED", "(*app.ProposalHandler).PrepareProposalHandler # one store of the injected commit", P.Pos(prep.Pos()), fmt.Sprint(n))
+		// and the extractors in Prepare read that same commit
+		for _, cs := range P.CallSitesIn(prep) {
+			if strings.HasPrefix(cs.Callee, "(*app.ProposalHandler).Check") && strings.HasSuffix(cs.Callee, "FromLastCommit") {
+				a := tmP.Of(Arg(cs.Instr, 1))
+				ok := strings.HasSuffix(a.Op, "RequestPrepareProposal.LocalLastCommit")
+				r.check(ok, "COMMIT-INJECTED", "(*app.ProposalHandler).PrepareProposalHandler # "+cs.Method+" reads the request's LocalLastCommit", P.Pos(cs.Pos()), clip(a.String(), 120))
+			}
+		}
+	}
 
 	// LOCKSTEP
 	for _, name := range []string{"(*app.ProposalHandler).CheckInitialSignaturesFromLastCommit", "(*app.ProposalHandler).CheckValsetSignaturesFromLastCommit", "(*app.ProposalHandler).CheckOracleAttestationsFromLastCommit"} {
@@ -418,7 +450,7 @@ func checkC17(r *Result) {
 	r.minCount("FRESH-DECODE", 4)
 	r.minCount("PROC-COVERS-PRE", 8)
 	r.minCount("LOCKSTEP", 3)
-	r.minCount("COMMIT-INJECTED", 5)
+	r.minCount("COMMIT-INJECTED", 10)
 }
 
 // checkLockstep: all appends feeding the returned parallel lists occur together in one block.
